@@ -31,6 +31,20 @@ def gen_sched_C(rng):
     if any(o[0] == 'm' for o in keys) and any(o[0] == 's' for o in keys): feats.add('both_fill_paths')
     return Case('sched', {'k': 'C', 'inner': inner, 'progs': progs, 'sched': sched}, feats)
 
+def gen_sched_L(rng):
+    """one option set per case (one map shard): the critical section of the stream fill path is probed"""
+    g = gen_tree.Gen(rng, gen_tree.Cfg(ascii=True, sms=0.3, cached=0.0, replace=0.0, warm=0.0))
+    inner = g.node(rng.randrange(0, 3))
+    nth = rng.choice([2, 2, 3])
+    k = rng.choice([0, 0, 1, 2, 3])
+    ops = ['s%d' % k, 's%d' % k, 'm%d' % k] if k < 2 else ['s%d' % k]
+    progs = [[rng.choice(ops) for _ in range(rng.randrange(1, 3))] for _ in range(nth)]
+    if not any(o[0] == 's' for p in progs for o in p):
+        progs[0][0] = 's%d' % k
+    steps = sum(2 * len(p) for p in progs)
+    sched = [rng.randrange(0, nth) for _ in range(rng.randrange(0, steps + 2))]
+    return Case('sched', {'k': 'L', 'inner': inner, 'progs': progs, 'sched': sched}, {'nontrivial', 'cached', 'lock_probe'})
+
 def ser_progs(progs):
     return ' '.join([str(len(progs))] + ['%d %s' % (len(p), ' '.join(p)) if p else '0' for p in progs])
 
@@ -39,7 +53,7 @@ def ser_sched(obj):
     if obj['k'] == 'R':
         rs = ' '.join([str(len(obj['rs']))] + ['%d %d %s %s %d' % (s, e, hx(c), ohx(nm), enf) for (s, e, c, nm, enf) in obj['rs']])
         return 'sched R %s %s %d %s %s' % (gen_tree.ser_node(obj['inner']), rs, obj['presort'], ser_progs(obj['progs']), sch)
-    return 'sched C %s %s %s' % (gen_tree.ser_node(obj['inner']), ser_progs(obj['progs']), sch)
+    return 'sched %s %s %s %s' % (obj['k'], gen_tree.ser_node(obj['inner']), ser_progs(obj['progs']), sch)
 
 def shrink_sched(obj):
     sch = obj['sched']
@@ -95,6 +109,9 @@ def normalize(kvs):
                         parts.append('%s:%d' % (key, r[ident]))
                     snaps.append('.'.join(parts))
                 ded = [x for i, x in enumerate(snaps) if i == 0 or x != snaps[i - 1]]
+                # leading empty snapshots carry nothing (none is taken while a fill path holds the shard)
+                while len(ded) > 1 and ded[0] == '-':
+                    ded.pop(0)
                 v = ';'.join(ded)
         out[k] = v
     return out
